@@ -359,6 +359,7 @@ type harnessReport struct {
 	Validated    int               `json:"native_replays_matching"`
 	Mismatches   []string          `json:"validation_mismatches,omitempty"`
 	StubSkipped  int64             `json:"paths_only_reachable_through_stub_over_approximation,omitempty"`
+	StubViolations int64           `json:"assertion_failures_discarded_as_stub_artefacts,omitempty"`
 	Violations   int               `json:"violations_replayed"`
 	Known        int               `json:"known_findings_matched"`
 	Unreproduced []string          `json:"engine_only_violations_not_reproduced,omitempty"`
@@ -523,7 +524,7 @@ func cmdCheck(args []string) {
 			SolverWallS: ex.SolverWall.Seconds(), LongestMs: float64(ex.SolverLongest.Microseconds()) / 1000,
 			Asserts: ex.Stats.Asserts, AssertsConcrete: ex.Stats.ConcreteAsserts, AssertsProved: ex.Stats.AssertProved, AssertsUnknown: ex.Stats.AssertUnknown,
 			Steps: ex.Stats.Steps, Cover: ex.Covers, Unencodable: ex.Unenc, BoundExceeded: ex.Bounds, Truncated: ex.Truncated,
-			funcs: ex.FuncsSeen, StubSkipped: ex.StubDiverged, UnknownAsserts: ex.UnknownAsserts,
+			funcs: ex.FuncsSeen, StubSkipped: ex.StubDiverged, StubViolations: ex.Stats.StubViolations, UnknownAsserts: ex.UnknownAsserts,
 		}
 		if len(ex.Unenc) > 0 || len(ex.Bounds) > 0 || ex.Truncated || ex.Stats.AssertUnknown > 0 || ex.Stats.BranchUnknown > 0 || ex.Stats.ConfirmBad > 0 {
 			incomplete = true
